@@ -1,4 +1,5 @@
 import BR.Lemmas.LruOrder
+import BR.Bridge.Lru
 /-!
 # C05 — eviction is least-recently-used first and only under space pressure
 
